@@ -3,6 +3,7 @@ import OFV.Core.Json
 import OFV.Model.C13Lattice
 import OFV.Model.C13Hubbard
 import OFV.Model.C13Grid
+import OFV.Model.C13RG
 import OFV.Spec.C13
 
 namespace OFV
@@ -113,6 +114,14 @@ def handle (op : String) (j : Json) : Option (Except String Json) :=
       | "sz" => .ok (J.ofOp (sZ tol n))
       | "s_squared" => .ok (J.ofOp (sSquared tol n))
       | s => .error s!"bad spin operator {s}"
+  | "c13.richardson_gaudin" => some do
+      let m : RG := ⟨← J.gq (← J.field j "g"), ← J.nat (← J.field j "n")⟩
+      let hc := J.ofList J.ofGQ ((List.range m.n).map m.hc)
+      let hr1 := J.ofList (fun p => J.ofList J.ofGQ ((List.range m.n).map fun q => m.hr1 p q)) (List.range m.n)
+      let q := match m.qubitOperator tol with
+        | some o => J.ofOp o
+        | none => Json.null
+      .ok (J.obj [("hc", hc), ("hr1", hr1), ("qubit_operator", q)])
   | "c13.orbital_id" => some do
       let length ← J.natList (← J.field j "length")
       let coords ← J.natList (← J.field j "coords")
